@@ -43,28 +43,34 @@ Inductive rop :=
 Record rrun := {
   rr_st : rstream;
   rr_out : list Z;        (* all bytes returned by Read so far *)
-  rr_eof : bool           (* a Read has returned io.EOF *)
+  rr_eof : bool;          (* a Read has returned io.EOF *)
+  rr_acc : list Z         (* doneCb ids of the frames handed to the sorter (ownership taken) *)
 }.
-Definition rrun_init (window : Z) : rrun := {| rr_st := rs_init window; rr_out := []; rr_eof := false |}.
+Definition rrun_init (window : Z) : rrun := {| rr_st := rs_init window; rr_out := []; rr_eof := false; rr_acc := [] |}.
 
 Definition rstep (S : Z -> Z) (r : rrun) (o : rop) : option rrun :=
   match o with
   | ROFrame off n fin cb =>
     let '(s', e) := handleStreamFrame (rr_st r) (slice S off n) off fin cb in
-    match e with FNil => Some {| rr_st := s'; rr_out := rr_out r; rr_eof := rr_eof r |} | _ => None end
+    match e with
+    | FNil => Some {| rr_st := s'; rr_out := rr_out r; rr_eof := rr_eof r;
+                      (* after CancelRead the frame is dropped: neither queued nor released *)
+                      rr_acc := if cancelledLocally (rr_st r) then rr_acc r
+                                else rr_acc r ++ match cb with Some c => [c] | None => [] end |}
+    | _ => None end
   | ROReset final reliable code =>
     let '(s', e) := handleResetStreamFrame (rr_st r) final reliable code in
-    match e with FNil => Some {| rr_st := s'; rr_out := rr_out r; rr_eof := rr_eof r |} | _ => None end
+    match e with FNil => Some {| rr_st := s'; rr_out := rr_out r; rr_eof := rr_eof r; rr_acc := rr_acc r |} | _ => None end
   | RORead n =>
     let '(s', d, e, bug) := Read (rr_st r) n in
     if bug then None else
     Some {| rr_st := s'; rr_out := rr_out r ++ d;
-            rr_eof := rr_eof r || match e with EEOF => true | _ => false end |}
+            rr_eof := rr_eof r || match e with EEOF => true | _ => false end; rr_acc := rr_acc r |}
   | ROPeek n =>
     let '(s', d, e, bug) := PeekS (rr_st r) n in
-    if bug then None else Some {| rr_st := s'; rr_out := rr_out r; rr_eof := rr_eof r |}
-  | ROCancel code => Some {| rr_st := CancelRead (rr_st r) code; rr_out := rr_out r; rr_eof := rr_eof r |}
-  | ROShutdown => Some {| rr_st := CloseForShutdown (rr_st r); rr_out := rr_out r; rr_eof := rr_eof r |}
+    if bug then None else Some {| rr_st := s'; rr_out := rr_out r; rr_eof := rr_eof r; rr_acc := rr_acc r |}
+  | ROCancel code => Some {| rr_st := CancelRead (rr_st r) code; rr_out := rr_out r; rr_eof := rr_eof r; rr_acc := rr_acc r |}
+  | ROShutdown => Some {| rr_st := CloseForShutdown (rr_st r); rr_out := rr_out r; rr_eof := rr_eof r; rr_acc := rr_acc r |}
   end.
 Fixpoint rsrun (S : Z -> Z) (r : rrun) (ops : list rop) : option rrun :=
   match ops with
@@ -74,7 +80,7 @@ Fixpoint rsrun (S : Z -> Z) (r : rrun) (ops : list rop) : option rrun :=
 Definition rvalid (o : rop) : Prop :=
   match o with
   | ROFrame off n _ _ => 0 <= off /\ 0 <= n
-  | ROReset final reliable _ => 0 <= final /\ 0 <= reliable
+  | ROReset final reliable _ => 0 <= final /\ 0 <= reliable <= final  (* the frame parser rejects reliable > final *)
   | RORead n | ROPeek n => 0 <= n
   | _ => True
   end.
